@@ -135,6 +135,19 @@ def work(spec, rec):
             except Exception as x:  # pylint: disable=broad-except
                 rec.inconc("reference crashed: " + type(x).__name__, dict(case, err=str(x)[:200]))
             rec.case((short, attr), nontrivial=has_dimensional_leaf(eq))
+            # wrappers (Average, FiniteDifference, differentials) store the dimension inferred at construction time: it must be
+            # the dimension of their argument (recomputed by the reference), otherwise the typing above used a stale value
+            try:
+                import sympy as _sp
+                for a in eq.atoms(_sp.Symbol) if hasattr(eq, "atoms") else []:
+                    if type(a).__mro__[1].__name__ == "Symbolic":
+                        rec.hit("wrappers_checked")
+                        want = refdim.refdim(a.factor)
+                        got = refdim.deps(a.dimension)
+                        if not refdim.deq(want, got):
+                            rec.violation(f"wrapper-dimension:{short}.{attr}", f"{short}.{attr}: wrapper {a} stores dimension {a.dimension} but its argument has {refdim.fmt(want)}", case)
+            except (refdim.Inhomogeneous, refdim.Unsupported):
+                pass
             if stats.get("undeclared"):
                 rec.add("equations_with_undeclared_plain_symbols")
             verdict2 = None
